@@ -289,15 +289,15 @@ theorem facts_charges :
 /-- the refusal branch: hook, reply −101, disconnect; the sleep before the handler -/
 theorem facts_refusal_branch :
     Facts.C14.refusalBranchRequest =
-      ["on_disconnect_due_to_excessive_session_cost",
-       "v3 = RPCError(JSONRPC.EXCESSIVE_RESOURCE_USAGE, 'excessive resource usage')",
-       "v1 = True"] ∧
-    Facts.C14.refusalBranchMessage = ["on_disconnect_due_to_excessive_session_cost", "close"] ∧
-    Facts.C14.disconnectTail = ["If:if v1:;    await close()"] ∧
+      ["call on_disconnect_due_to_excessive_session_cost",
+       "result RPCError(JSONRPC.EXCESSIVE_RESOURCE_USAGE, 'excessive resource usage')",
+       "set flag guarding close()"] ∧
+    Facts.C14.refusalBranchMessage =
+      ["call on_disconnect_due_to_excessive_session_cost", "call close"] ∧
     Facts.C14.excessiveResourceUsage = -101 ∧
     Facts.C14.sleepGuard = ["if _cost_fraction: sleep(_cost_fraction * cost_sleep)",
                             "if _cost_fraction: sleep(_cost_fraction * cost_sleep)"] :=
-  ⟨rfl, rfl, rfl, rfl, rfl⟩
+  ⟨rfl, rfl, rfl, rfl⟩
 
 /-! ## non-vacuity -/
 
